@@ -403,6 +403,7 @@ class Machine(RuleBasedStateMachine):
         self.sim = Sim()
         self.dead = False
         self.busy = False
+        self.walker = False
 
     def do(self, name, *args):
         import time
@@ -427,11 +428,12 @@ class Machine(RuleBasedStateMachine):
             keep = [list(x) for x in self.steps[:40]] if sum(1 for c in Machine.COLLECT if c[3] is not None) < 2 and self.sim.stats.get("ref") else None
             Machine.COLLECT.append((hash(repr(self.steps)), dict(self.sim.stats), len(self.sim.acs), keep))
 
-    @initialize(lat=RXLAT, lon=RXLON, rx_known=st.sampled_from([True, True, True, False]), t_start=st.sampled_from([1000.0, 1000.0, 0.0, -0.9, -500.75, 1.7e9 + 0.5, -61.3]), dump=st.sampled_from([False, False, True]), busy=st.sampled_from([False] * 9 + [True]), first=st.lists(st.tuples(st.integers(0, 5), st.booleans(), cg.latitudes(), cg.longitudes(), gen.ufloat(0, 28), gen.ufloat(0, 360),
+    @initialize(lat=RXLAT, lon=RXLON, rx_known=st.sampled_from([True, True, True, False]), t_start=st.sampled_from([1000.0, 1000.0, 0.0, -0.9, -500.75, 1.7e9 + 0.5, -61.3]), dump=st.sampled_from([False, False, True]), busy=st.sampled_from([False] * 9 + [True]), walker=st.sampled_from([False] * 4 + [True]), first=st.lists(st.tuples(st.integers(0, 5), st.booleans(), cg.latitudes(), cg.longitudes(), gen.ufloat(0, 28), gen.ufloat(0, 360),
                                                                gen.ufloat(0, 360), st.one_of(gen.ufloat(0, 600), st.just(600.0)), st.sampled_from(["air", "air", "sfc"])),
                                                      min_size=1, max_size=3))
-    def start(self, lat, lon, first, t_start, rx_known, dump, busy):
+    def start(self, lat, lon, first, t_start, rx_known, dump, busy, walker):
         self.busy = busy
+        self.walker = walker
         self.do("init", lat, lon, t_start, rx_known, dump)
         for a in first:
             self.do("add_aircraft", *a)
@@ -520,6 +522,38 @@ class Machine(RuleBasedStateMachine):
         self.do("velocity", idx, seed * 4 + 1)
         self.do("position", idx, parity, 2, bits & ~15 | 5, 17)
         self.do("position", idx, parity, 2, bits & ~15 | 6, 17)
+        self.do("flush")
+
+    @precondition(lambda self: self.walker and len(self.sim.acs) < 4)
+    @rule(idx=st.integers(0, 5), parity=st.integers(0, 1), axis=st.sampled_from(["north", "south", "east", "west"]), lat0=gen.ufloat(-60, 60), bits=gen.ubits(15), step=st.sampled_from([50.0, 30.0, 55.0]))
+    def zone_walk(self, idx, parity, axis, lat0, bits, step):
+        """an aircraft at 600 kt along a meridian (or the equator) that reports one parity only for as long as it takes to cross exactly one CPR zone
+        of the other parity: the frame of that other parity it sends then is bit-identical to the one it sent a zone earlier"""
+        self.walker = False
+        if len(self.sim.acs) >= 4 or ADDRS[idx % len(ADDRS)] in self.sim.acs:
+            return
+        zone = 360.0 / (60 - parity) if axis in ("north", "south") else 360.0 / (59 - parity)
+        total = zone * 360.0                      # seconds for `zone` degrees of arc at 600 kt (1 NM = 1 arc minute)
+        if axis in ("north", "south"):
+            # start well inside a CPR bin of both axes, far enough from the poles for the whole walk
+            lat = (math.floor(lat0 / zone) + 0.3217) * zone
+            lat = lat - zone * 3 if (axis == "north" and lat > 55) else (lat + zone * 3 if (axis == "south" and lat < -55) else lat)
+            self.do("add_aircraft", idx, False, lat, 0.0, 0.0, 0.0, 0.0 if axis == "north" else 180.0, 600.0, "air")
+        else:
+            self.do("add_aircraft", idx, False, 0.0, (math.floor(lat0 / zone) + 0.3217) * zone, 0.0, 0.0, 90.0 if axis == "east" else 270.0, 600.0, "air")
+        me = sorted(self.sim.acs).index(ADDRS[idx % len(ADDRS)])
+        self.do("position", me, 1 - parity, 2, bits & ~15 | 6, 17)
+        self.do("advance", 1.0)
+        self.do("position", me, parity, 2, bits & ~15 | 6, 17)      # completes the pair: this is the frame that gets decoded, a zone before its twin
+        self.do("flush")
+        done = 0.0
+        while total - done > step + 1.0:
+            self.do("advance", step)
+            done += step
+            self.do("position", me, 1 - parity, 2, bits & ~15 | 6, 17)
+            self.do("flush")
+        self.do("advance", total - done)
+        self.do("position", me, parity, 2, bits & ~15 | 6, 17)
         self.do("flush")
 
     @precondition(lambda self: self.busy and self.sim.stats["msgs"] < 5000)
